@@ -565,6 +565,38 @@ func c04TypeValidationTotal(ctx *Ctx, r *Report, st *c04vState) {
 				miss = append(miss, w)
 			}
 		}
+		// (c') the two invariants the front-ends give beyond "the payload is there": a constraint carries an argument
+		// (jennies and WithTypeConstraints read Args[0]) and the type of an enum member is a scalar (they call AsScalar on it)
+		if k == "KindScalar" {
+			argsTested := false
+			ast.Inspect(cc, func(n ast.Node) bool {
+				if is, ok := n.(*ast.IfStmt); ok {
+					txt := exprString(is.Cond)
+					if strings.Contains(txt, "len(") && strings.Contains(txt, ".Args") && strings.Contains(txt, "== 0") && blockReturnsError(info, is.Body, errT) {
+						argsTested = true
+					}
+				}
+				return true
+			})
+			if !argsTested {
+				miss = append(miss, "a constraint without argument is not rejected")
+			}
+		}
+		if k == "KindEnum" {
+			memberKind := false
+			ast.Inspect(cc, func(n ast.Node) bool {
+				if is, ok := n.(*ast.IfStmt); ok {
+					txt := exprString(is.Cond)
+					if strings.Contains(txt, ".Type.Kind") && strings.Contains(txt, "KindScalar") && blockReturnsError(info, is.Body, errT) {
+						memberKind = true
+					}
+				}
+				return true
+			})
+			if !memberKind {
+				miss = append(miss, "a member whose type is not a scalar is not rejected")
+			}
+		}
 		// (c) emptiness of enums and unions
 		if k == "KindEnum" || k == "KindDisjunction" {
 			lenTested := false
